@@ -55,7 +55,6 @@ func VerifC02_Field() {
 func VerifC02_FlowModInstructions() {
 	f := NewFlowMod()
 	f.Command = vr.U8("command")
-	f.Match = *buildMatch(1, 0)
 	k := vr.IntRange("ninstr", 0, 2)
 	for i := 0; i < k; i++ {
 		f.AddInstruction(buildInstr(vr.Choice("ikind", nInstrKinds), 1, 1))
